@@ -87,6 +87,15 @@ func buildWorld(base string) world {
 		Params: []P{{Name: "up", In: "file", Type: "file", Fname: `b"c.bin`, Flen: 5000, Fpat: 0}, {Name: "note", In: "form", Type: "string", V: []BS{""}}}, Resp: respOf(200, "json", "F-2")})
 	add(false, Case{Method: "POST", Template: "/upload", Consumes: "multipart", Produces: "json", Auth: true,
 		Params: []P{{Name: "up", In: "file", Type: "file", Fname: "signed.bin", Flen: 70000, Fpat: 0}, {Name: "note", In: "form", Type: "string", V: []BS{"signed"}}}, Resp: respOf(200, "json", "F-auth")})
+	// the rest of the auth writer axis on the streamed bodies: reader payload (A), multipart form (D), file (F)
+	for i, mode := range []string{"header", "body2", "body3", "compose"} {
+		add(i == 1, Case{Method: "POST", Template: "/things", Consumes: "bytes", Produces: "json", Auth: true, AuthMode: mode,
+			Params: []P{str("bytes", BS("signed bytes "+mode)), q("x")}, Resp: respOf(200, "json", BS("A4-"+mode))})
+		add(i == 3, Case{Method: "POST", Template: "/forms", Consumes: "multipart", Produces: "json", Auth: true, AuthMode: mode,
+			Params: form(BS("signed "+mode), "s"), Resp: respOf(200, "json", BS("D4-"+mode))})
+		add(false, Case{Method: "POST", Template: "/upload", Consumes: "multipart", Produces: "json", Auth: true, AuthMode: mode,
+			Params: []P{{Name: "up", In: "file", Type: "file", Fname: "s.bin", Flen: 600, Fpat: 0}, {Name: "note", In: "form", Type: "string", V: []BS{BS(mode)}}}, Resp: respOf(200, "json", BS("F4-"+mode))})
+	}
 	// G: GET /things/{id}/sub - path parameter, no body
 	add(true, Case{Method: "GET", Template: "/things/{id}/sub", Consumes: "json", Produces: "json", Params: []P{id("x%2Fy"), qi("-9223372036854775808")}, Resp: respOf(200, "json", "G-1")})
 	add(false, Case{Method: "GET", Template: "/things/{id}/sub", Consumes: "json", Produces: "text", Params: []P{id("日本"), qi("42")}, Resp: respOf(503, "text", "G-2")})
